@@ -477,9 +477,10 @@ def monitor_c08(sc, obs):
                 cands = lanes(pd[u].get('down', []))
                 if b not in cands:
                     continue
+                took = set(r2[1] for r2 in o['data'] if r2[0] == 6)      # devices that took a part in during this event
                 for a in cands:
                     ea = pd[a]
-                    if a == b or ea.get('wait_since') is None:
+                    if a == b or ea.get('wait_since') is None or a in took:
                         continue
                     free = not ea.get('part') and not ea.get('out') and not ea['block'] and not ea.get('shut') and not ea.get('req') and not ents[a].get('on_receive')
                     if free and ea['wait_since'] < pd[b]['wait_since'] and not devs[a].get('part'):
